@@ -91,6 +91,10 @@ pub fn res_code<X>(r: &Option<Result<X, graphrs::Error>>) -> i64 {
 /// run a closure on a fresh thread with a wall-clock limit: Some(Some(r)) on return,
 /// Some(None) when it panicked, None when it did not finish in time (the thread is
 /// abandoned; the process exits with `process::exit` at the end of the run).
+/// set when a watchdog expired: the abandoned thread keeps a core busy, so the process
+/// finishes the current case and exits with status 3; the driver restarts it on the rest.
+pub static HUNG: std::sync::atomic::AtomicBool = std::sync::atomic::AtomicBool::new(false);
+
 pub fn guard_t<R: Send + 'static, F: FnOnce() -> R + Send + 'static>(ms: u64, f: F) -> Option<Option<R>> {
     let (tx, rx) = std::sync::mpsc::channel();
     std::thread::Builder::new()
@@ -102,7 +106,10 @@ pub fn guard_t<R: Send + 'static, F: FnOnce() -> R + Send + 'static>(ms: u64, f:
         .expect("spawn");
     match rx.recv_timeout(std::time::Duration::from_millis(ms)) {
         Ok(r) => Some(r),
-        Err(_) => None,
+        Err(_) => {
+            HUNG.store(true, std::sync::atomic::Ordering::SeqCst);
+            None
+        }
     }
 }
 
